@@ -35,6 +35,8 @@ class Recorder:
         self.enabled = True
         self.max_events = 200000
         self.last_digest = ""
+        self.last_same = []
+        self._last_raw = {}
 
     def watch_module(self, name, module):
         from .digests import module_digest
@@ -52,12 +54,20 @@ class Recorder:
                 d = fn()
             except Exception as e:  # a watched object may be mid-update inside a transform
                 d = f"unreadable:{type(e).__name__}"
+            self._last_raw[name] = d
             ids = self.versions.setdefault(name, {})
             if d not in ids:
                 ids[d] = len(ids)
             out[name] = ids[d]
             hh.update(name.encode() + d.encode())
         self.last_digest = hh.hexdigest()[:12]  # content digest of all watched components (for determinism)
+        # groups of watched components with bit-identical content (copy relations, e.g. target == online after a hard update)
+        by = {}
+        for name in self.watch:
+            dd = self._last_raw.get(name)
+            if dd is not None and not dd.startswith("unreadable"):
+                by.setdefault(dd, []).append(name)
+        self.last_same = [sorted(v) for v in by.values() if len(v) > 1]
         return out
 
     def emit(self, ev, **fields):
@@ -70,6 +80,7 @@ class Recorder:
         if self.watch:
             rec["ver"] = self.snapshot()
             rec["vd"] = self.last_digest
+            rec["same"] = self.last_same
         self.events.append(rec)
 
 
